@@ -13,3 +13,6 @@ import LdkModel.Props.C10
 #print axioms Ldk.C10.reconcile_never_forwarded_kept
 #print axioms Ldk.C10.reconcile_forwarded_dropped
 #print axioms Ldk.C10.dedup_decode_exact
+#print axioms Ldk.C10.failed_on_reload_only_if_buried
+#print axioms Ldk.C10.not_buried_kept_pending
+#print axioms Ldk.C10.buried_absent_failed
